@@ -39,6 +39,8 @@ ClearV(v)           == vs' = [vs EXCEPT ![v] = NullV] /\ UNCHANGED <<ls, pads, m
 ListSet(L, s)       == ls' = [ls EXCEPT ![L] = s] /\ UNCHANGED <<vs, pads, mut>>
 ListPut(L, i, e)    == i < Len(ls[L]) /\ ls' = [ls EXCEPT ![L][i + 1] = e] /\ UNCHANGED <<vs, pads, mut>>   \* the caller mutates its own list
 
+ListAppend(L, e)    == ls' = [ls EXCEPT ![L] = Append(ls[L], e)] /\ UNCHANGED <<vs, pads, mut>>               \* ... appends to it
+ListCut(L, n)       == n <= Len(ls[L]) /\ ls' = [ls EXCEPT ![L] = SubSeq(ls[L], 1, n)] /\ UNCHANGED <<vs, pads, mut>>   \* ... shortens it
 \* Equality: scalars by type and payload; arrays element-wise. "yes"/"no"/"either" (identity vs value comparison of
 \* elements is left open: equal references => yes; different lengths => no; otherwise either)
 EqualsExpectIn(vv, a, b) ==
